@@ -768,8 +768,7 @@ def terms_are_like(
     if len(one.variables) != len(two.variables):
         return False
 
-    invalid = len([False for v in one.variables if v not in two.variables]) > 0
-    if invalid:
+    if sorted(one.variables) != sorted(two.variables):
         return False
 
     # Also, the exponents must match
